@@ -25,6 +25,7 @@ import math
 import numpy as np
 
 from . import argforms_a as af
+from . import callshape as cs
 from . import qc
 from .common import bits, unbits
 from .qc import torch
@@ -41,6 +42,7 @@ REQUIRED_THEOREMS = [
     "C05_k_step_law_purif", "C05_invariant_k", "C05_invariant_k_purif", "C05_continue", "C05_values_shape",
     "C05_overwrite", "C05_run_law", "C05_batch_law", "C05_batch_law_purif",
     "C05_overwrite_flag", "C05_overwrite_any_form",   # round 4: `overwrite` as the object the caller passed
+    "C05_call_forms", "C05_vector_form_is_row", "C05_call_forms_ha",   # extension round 2: auto_unsqueeze_args inside the model
 ]
 EXTRA_TRUSTED = [
     "torch.bernoulli(p) draws independent Bernoulli(p) bits (the replay replaces it by a recorder; the thorough tier "
@@ -56,7 +58,11 @@ TH = {
     "buf": "C05_overwrite, C05_overwrite_flag (the object passed as `overwrite` counts by its truth value)",
     "cont": "C05_continue, C05_continue_batch",
 }
-RULE = ("model case = (state kind pos/cplx/dens, n<=4, h<=4, a<=3, scale in {0.1,1,3,10,30}, all parameters scale*N(0,1), all biases "
+RULE = ("CALL FORMS (extension round 2): per run 4 (thorough: 10) models (plain RBM of a positive state / purification RBM, scale in {0.1,1,3}) x the decorated public conditionals "
+        "prob_h_given_v / prob_v_given_h / prob_a_given_v / prob_v_given_ha and PurificationRBM.effective_energy(v[, a]) on random 0/1 tensors in the forms vector, batch (B = 1, 2, 3), "
+        "rank-3, and for the two-operand methods every mixture (1-D h with batched a: refused unless one row; batched h with 1-D a; one-row batch with 1-D a: axis lost) "
+        "against the model of auto_unsqueeze_args (accepted-or-refused, exact shape, entries; vector / equal-batch forms property level, rank-3 and mixed forms aux); "
+        "model case = (state kind pos/cplx/dens, n<=4, h<=4, a<=3, scale in {0.1,1,3,10,30}, all parameters scale*N(0,1), all biases "
         "non-zero); part (a): all 2^n visible / 2^h hidden / 2^(h+a) hidden+aux configurations plus real-valued rows, vector and "
         "batched forms; part (b): replay case = (model, k in 0..3, start = every basis state as a batch (n<=3) or random batch / single "
         "vector / no initial state, overwrite, dtype, draw mode faithful|coin, draw seed, optional continuation call); non-trivial iff "
@@ -1099,6 +1105,72 @@ def gen_stats(ctx):
                            "N": 200000, "k": k, "start": start, "tseed": ctx.rng.randrange(2 ** 31), "aseed": af.draw_aseed(ctx.rng)}
 
 
+# ------------------------------------------------------------------ call forms (extension round 2)
+CALLFORM_THEOREM = "C05_call_forms / C05_vector_form_is_row"
+
+
+def callform_case(ctx, case):
+    """one decorated public method of the REAL RBM on tensor arguments against the model of `auto_unsqueeze_args` around the per-state
+    conditional (op c05.callform): accepted-or-refused, exact result shape, entries"""
+    kind, n, h, a, am, fn = case["kind"], case["n"], case["h"], case["a"], case["am"], case["fn"]
+    ctx.current_case = case
+    st = build(kind, n, h, a, am, case["ph"])
+    rbm = st.rbm_am
+    dims = {"rbm_h_given_v": (n, None), "rbm_v_given_h": (h, None), "p_h_given_v": (n, None), "p_a_given_v": (n, None),
+            "p_v_given_ha": (h, a), "p_energy": (n, a)}[fn]
+    x = torch.tensor(case["x"]["rows"], dtype=torch.double).reshape(*case["x"]["lead"], dims[0])
+    y = None if case.get("y") is None else torch.tensor(case["y"]["rows"], dtype=torch.double).reshape(*case["y"]["lead"], dims[1])
+    xl, yl = case["x"]["lead"], (None if y is None else case["y"]["lead"])
+    plain = len(xl) <= 1 and (yl is None or yl == xl)
+    level = "property" if plain else "aux"
+    thm = "C05_call_forms_ha" if fn == "p_v_given_ha" else CALLFORM_THEOREM
+    form = f"x{xl}" + ("" if yl is None else f"/y{yl}")
+    ctx.case(case, nontrivial=any(v != 0 for v in am["b"]) and any(v != 0 for v in am["c"]), sample={"callform": fn, "x": xl, "y": yl})
+    ctx.count(f"callform/{fn}/" + ("vector" if xl == [] and yl in (None, []) else "batch" if plain else "rank3" if len(xl) > 1 else "mixed"))
+    f = {"rbm_h_given_v": lambda: rbm.prob_h_given_v(x), "rbm_v_given_h": lambda: rbm.prob_v_given_h(x),
+         "p_h_given_v": lambda: rbm.prob_h_given_v(x), "p_a_given_v": lambda: rbm.prob_a_given_v(x),
+         "p_v_given_ha": lambda: rbm.prob_v_given_ha(x, y),
+         "p_energy": (lambda: rbm.effective_energy(x)) if y is None else (lambda: rbm.effective_energy(x, y))}[fn]
+    x0 = x.clone()
+    impl = cs.impl_result(f, "scalar" if fn == "p_energy" else "vec")
+    ctx.count(f"callform/{fn}: " + ("refused" if impl["refused"] else "accepted"))
+    if plain:
+        ctx.oracle("vector / batch call form accepted, leading shape kept", (not impl["refused"]) and impl["shape"] == xl, case,
+                   detail=impl.get("exc") or {"shape": impl.get("shape")}, sig=f"callform/{fn}/shape-oracle", theorem=thm)
+    if ctx.driver is not None:
+        req = {"fn": fn, "n": n, "h": h, "a": a, "r": qc.pbits(am), "x": cs.arg(x), "y": None if y is None else cs.arg(y)}
+        model = cs.model_result(ctx.driver.call("c05.callform", **req))
+        sc = float(np.max(np.abs(impl["data"]))) + 1e-300 if not impl["refused"] and impl["data"].size else 1.0
+        cs.compare(ctx, f"{fn} ({form})", level, impl, model, case, thm, f"callform/{fn}/" + ("plain" if plain else "other"), scale=sc)
+    ctx.point("argument unmodified (call forms)", "aux", bool(torch.equal(x, x0)), True, case, exact=True, sig="callform/arg-modified")
+
+
+def gen_callforms(ctx, thorough):
+    rng = ctx.rng
+    single = [[], [1], [2], [3], [2, 2], [1, 3]]
+    for rep in range(10 if thorough else 4):
+        kind = ["pos", "dens"][rep % 2]
+        n, h, a = rng.choice([1, 2, 3, 4]), rng.choice([1, 2, 3, 4]), (rng.choice([1, 2, 3]) if kind == "dens" else 0)
+        scale = rng.choice([0.1, 1.0, 3.0])
+        am, ph = rand_model(rng, kind, n, h, a, scale)
+        base = {"part": "callform", "kind": kind, "n": n, "h": h, "a": a, "scale": scale, "am": am, "ph": ph}
+        T = lambda lead, m: {"lead": lead, "rows": cs.rows_of(cs.rand_tensor(rng, lead, m))}  # noqa: E731
+        if kind == "pos":
+            for lead in single:
+                yield {**base, "fn": "rbm_h_given_v", "x": T(lead, n)}
+                yield {**base, "fn": "rbm_v_given_h", "x": T(lead, h)}
+        else:
+            B = rng.choice([2, 3])
+            for lead in single:
+                yield {**base, "fn": "p_h_given_v", "x": T(lead, n)}
+                yield {**base, "fn": "p_a_given_v", "x": T(lead, n)}
+                yield {**base, "fn": "p_energy", "x": T(lead, n)}
+            for (xl, yl) in ([], []), ([B], [B]), ([1], [1]), ([B], []), ([1], []), ([], [B]), ([], [1]), ([B], [1]), ([1], [B]):
+                yield {**base, "fn": "p_v_given_ha", "x": T(xl, h), "y": T(yl, a)}
+            for (xl, yl) in ([], []), ([B], [B]), ([B], []), ([], [B]), ([1], [B]):
+                yield {**base, "fn": "p_energy", "x": T(xl, n), "y": T(yl, a)}
+
+
 def dispatch(ctx, case):
     """one case; integer options handed over as objects outside every quantifier (np.uint8, 0-d arrays / tensors) and REFUSED by the
     implementation are informational (argforms_a.tolerant, second audit X-1)"""
@@ -1107,7 +1179,9 @@ def dispatch(ctx, case):
 
 def _dispatch(ctx, case):
     ctx.current_case = case
-    if case["part"] == "cond":
+    if case["part"] == "callform":
+        callform_case(ctx, case)
+    elif case["part"] == "cond":
         cond_case(ctx, case)
     elif case["part"] == "replay":
         replay_case(ctx, case)
@@ -1129,6 +1203,8 @@ def run(ctx):
         for rc in gen_replays(ctx, model, thorough):
             dispatch(ctx, rc)
         dispatch(ctx, gen_history(ctx, model, thorough, idx))
+    for cf in gen_callforms(ctx, thorough):   # after the older parts: their seeded streams are unchanged
+        dispatch(ctx, cf)
     if thorough:
         worst = 0.0
         cnt = 0
